@@ -46,6 +46,21 @@ EXT_THEOREMS = [
     "Mpc.C01_tweak_wrap_shares",
     "Mpc.C01_garble_local",
 ]
+# the input width of "every circuit" and the random stream (Model/GarbleTape.lean, Proofs/GarbleTape.lean, section
+# "The input width" of Props/C01.lean)
+WIDTH_THEOREMS = [
+    "Mpc.C01_every_input_wire_assigned",
+    "Mpc.C01_input_pairs_offset",
+    "Mpc.C01_short_stream_fails",
+    "Mpc.C01_batch_size_irrelevant",
+    "Mpc.C01_driver_slots",
+]
+WIDTH_REACHED = (["ext_dim_inputs", "ext_inputs_scratch_fresh", "ext_inputs_scratch_reused", "ext_inputs_beyond_2p13",
+                  "ext_inputs_garblings_tied_full"] +
+                 ["ext_inputs_multiple_%d%s" % (m, d) for m in (256, 1024) for d in ("_minus1", "", "_plus1")] +
+                 ["ext_inputs_keysize_%d" % k for k in (16, 24, 32)] +
+                 ["ext_inputs_assignment_" + a for a in ("last_only", "first_only", "every_kth", "all_ones", "random")] +
+                 ["ext_discovered_dim_" + d for d in ("inputs", "labels", "gates", "wires")])
 EXT_REACHED = (["ext_labels_body_2p%d%s" % (b, d) for b in (16, 20) for d in ("_minus1", "", "_plus1")] +
                ["ext_%s_beyond_2p%d" % (dim, b) for dim in ("labels", "gates", "wires") for b in (16, 20)] +
                ["ext_kind_%s_after_2p%d_labels" % (k, b) for k in "aoixn" for b in (16, 20)] +
@@ -91,9 +106,21 @@ def run_ext(ctx, seed, tag="", only=None):
     kinds before and after each boundary; oracle on every wire of the real evaluation; tie: whole-garbling digests
     (full) or row counts + sampled local steps (local) against Model/GarbleBig.lean."""
     import hashlib
-    extra = ["-only", str(only)] if only is not None else []
-    ops, out, meta = ctx.run_hx("ext", 1000, seed=seed, tag=tag, extra_args=extra)
+    extra = ["-repo", vlib.REPO] + (["-only", str(only)] if only is not None else [])
+    ops, out, meta = ctx.run_hx("ext", 100000, seed=seed, tag=tag, extra_args=extra)
     ctx.absorb_meta(meta)
+    if not tag:
+        # boundary discovery: the integer constants of the garbling code path of the tree under test
+        found = meta.get("discovered_constants") or []
+        ctx.coverage["discovered_boundary_constants"] = {
+            "from": meta.get("discovered_from"), "range": "[8, 2^20]",
+            "sizes_per_constant_and_dimension": "c-1, c, c+1, 2c-1, 2c, 2c+1 for inputs / table labels / gates / wires "
+                                                "(quick tier: the 2c sizes only up to 2^17)",
+            "constants": found, "plan_cases": meta.get("ext_plan_cases")}
+        ctx.oblige("boundary discovery read the integer constants of the garbling code path (circuit/garble.go, "
+                   "circuit/eval.go, ot/label.go) of the tree under test", bool(found) and
+                   not meta.get("discovered_constants_error"),
+                   "error: %s; found: %s" % (meta.get("discovered_constants_error"), found))
     if os.path.exists(ops) and os.path.getsize(ops) > 0:
         ctx.correspond("extreme circuits: R, rows per gate kind, digests of all wire pairs / table rows / evaluated "
                        "labels (full) or row counts, Compute bits and sampled local gate steps (local) "
@@ -113,7 +140,7 @@ def distinct_ops(ctx, ops):
 
 
 def run(ctx):
-    ctx.prove("MpcVerif.Props.C01", THEOREMS + EXT_THEOREMS)
+    ctx.prove("MpcVerif.Props.C01", THEOREMS + EXT_THEOREMS + WIDTH_THEOREMS)
     ctx.prove("MpcVerif.Props.C01Hist", HIST_THEOREMS)
     run_t1(ctx, ["C01"])          # label primitives and garbling leaves
     if ctx.tier == "thorough":
@@ -128,6 +155,7 @@ def run(ctx):
         if rq:
             mode, seed, _, case = rq
             run_ext(ctx, seed, tag="-replay", only=case)
+            ctx.coverage.setdefault("counters", {})
             print("replayed %s case %d of seed %d (tier %s): %d oracle failure(s)" % (mode, case, seed, ctx.tier, len(ctx.fails)))
             for f in ctx.fails[:3]:
                 print("  " + json.dumps({k: v for k, v in f.items() if k not in ("tape", "circuit")})[:700])
@@ -183,6 +211,11 @@ def run(ctx):
         ctx.oblige("extreme-circuit generator reached the 2^16 and 2^20 boundaries of the table slab (one below / on / "
                    "one above), circuits beyond them in gates and wires, every gate kind after each boundary, all key "
                    "sizes, both ties", not missing, "not reached: %s" % missing)
+        missing = [k for k in WIDTH_REACHED if not c.get(k)]
+        ctx.oblige("extreme-circuit generator reached the INPUT-WIDTH dimension (one below / on / one above multiples of "
+                   "256 and 1024, beyond 2^13; only-last / only-first / every k-th / all / random assignments; fresh and "
+                   "pooled scratch; all key sizes) and every discovered constant in all four dimensions",
+                   not missing, "not reached: %s" % missing)
     ctx.coverage["rule"] = ("random well-formed circuits (6 gate mixes, fan-out, in0=in1, wire overwrite, in every third circuit "
                             "inserted gates of every kind that write one of their own input wires), keys of "
                             "16/24/32 bytes, random/biased tapes; distinct = distinct op lines having at least one "
@@ -195,7 +228,15 @@ def run(ctx):
                             "on / one above 2^16 and 2^20 (thorough: up to 2^22), repeating gate-kind patterns with all "
                             "five kinds, with or without two more rounds of all kinds after the boundary; 3 garblings "
                             "(16/24/32 byte keys, scratch reused) x 3 inputs each, every wire judged; each case is one "
-                            "distinct op line")
+                            "distinct op line; INPUT WIDTH (dimension inputs of mode ext): circuits with n input wires for n "
+                            "one below / on / one above every multiple of 256 up to 4096 and 2^13 (thorough: every multiple "
+                            "of 128 up to 8192, 2^14..2^17, 2^20), every input wire reaching the outputs through a parity "
+                            "chain and a reduction tree of all gate kinds, evaluated with only the last / only the first / "
+                            "every k-th / all / random input wires set, garbled on fresh and on pooled scratch with all "
+                            "key sizes; DISCOVERED boundaries: every integer constant c in [8, 2^20] of circuit/garble.go, "
+                            "circuit/eval.go, ot/label.go (literals, constant expressions, package constants they use) "
+                            "gives sizes c-1, c, c+1, 2c-1, 2c, 2c+1 in all four dimensions; structural oracle on the real "
+                            "Garbled value: select bit of R set and L1 = L0 xor R on every wire")
     ctx.assumptions += [
         "crypto/aes is an arbitrary function in the theorems; its Lean re-implementation only matters for the byte-exact comparison",
         "tweak counter modelled as Nat; the code's uint32 counter equals it mod 2^32 at every gate of every circuit and "
@@ -205,6 +246,12 @@ def run(ctx):
         "extreme circuits: sizes up to 2^22 table labels / gates / wires are executed; the whole garbling is reproduced "
         "by the model up to 2^16 (quick) / 2^20 (thorough), beyond that the model reproduces row counts, Compute bits "
         "and the local steps of sampled gates (C01_garble_local) and the oracle judges every wire on the real code",
+        "input width: widths up to 2^13+1 (quick) / 2^17+1 (thorough) are reproduced whole by the model, 2^20 by row counts, "
+        "Compute bits, sampled local gate steps and sampled input wire pairs; a random stream wider than 2^13 labels is "
+        "written in the op line as the seed of a splitmix64 stream which harness and driver expand identically",
+        "boundary discovery is syntactic (go/parser on three files + package constants they mention): a size that is "
+        "computed at run time or lives in another package is not found; the static list of widths covers multiples of "
+        "256 (128) regardless",
         "WF excludes circuits in which a gate overwrites an input wire (the API hands out input labels after garbling)",
         "histories: sync.Pool is a linearizable multiset (Model/Pool.lean, as in C17); which cached scratch Get returns is "
         "not observable - the theorems hold for every choice, the executed model takes the most recently Put one",
@@ -227,4 +274,11 @@ def run(ctx):
         "gate = slice [start, start+count) of the stack table with the dropped row zero; the slab is exactly filled and "
         "each gate's view reads back its table for every circuit; rows per gate kind are fixed by the circuit; uint32 "
         "tweak counter = Nat counter mod 2^32; the constant-stack loops the driver runs are the model; local "
-        "characterisation of a garbling.  Tie: mode ext on circuits across 2^16 / 2^20 table labels, gates, wires.")
+        "characterisation of a garbling.  Tie: mode ext on circuits across 2^16 / 2^20 table labels, gates, wires.  "
+        "Input width (section 3 of Props/C01.lean, Model/GarbleTape.lean): Garble on the slots of ONE random stream - "
+        "slot 0 is R, slot i+1 the zero-label of input wire i; for every well-formed circuit of any input width and "
+        "every stream of at least 1+nIn labels every input wire carries (slot, slot xor R), the two differ and are not "
+        "the zero pair; a shorter stream fails; the number of labels fetched per read is irrelevant.  Tie: dimension "
+        "inputs of mode ext (widths around every multiple of 256 and around every constant discovered in the garbling "
+        "code path, every input wire reaching the outputs) against garbleSlotsTR byte for byte, bytes consumed "
+        "included; oracle: L1 = L0 xor R on every wire of the real Garbled value, every wire of every evaluation.")
